@@ -8,7 +8,8 @@ shuffled `os.walk`) and compared with
   S  the Lean specification `Spec.created tree settings` (no environment at all), and
   M  the code-shaped Lean model `pathSetter` run in the same environment (cwd, spelling, walk
      order, the scratch file system),
-under the hypothesis `hyp` of theorem `C15_created_partial`.  `casefold`, `fnmatch` and
+under the hypothesis `hyp` of theorem `C15_created_env` (well-formedness of environment and tree
+only; it holds for every variant the harness builds).  `casefold`, `fnmatch` and
 `re.search` are oracle tables computed here for exactly the strings the model/spec ask for
 (`c15.queries`).  `utils.list_files` is tied to the model's `listFiles` separately.
 
@@ -31,9 +32,9 @@ from harness import common
 RULE = ('groups = (tree, pattern settings); trees: <= 12 files, nesting <= 3, hidden files/dirs at '
         'top level and below, empty files, case variants (a/B.txt vs A/b.txt), names with spaces / '
         'unicode / characters sorting around "/", single-directory and single-file trees, hidden or '
-        'dotted root names; each group at 2 tmpfs locations x ~25 (cwd, spelling) variants (parent / '
+        'dotted root names; each group at 2 tmpfs locations x ~30 (cwd, spelling) variants (parent / '
         'tree / child / grandchild / unrelated cwd; T, ./T, T/, T//, absolute, //absolute, ../P/T, '
-        'abs with .., ., ./, .//., .., ../, ../., ./.., ../../T, child/.., ../..) x shuffled os.walk order; '
+        'abs with .., ., ./, .//., .., ../, ../., ./.., ../../T, child/.., ../.., ../T/child/.., ../../../T/c/g/../..) x shuffled os.walk order; '
         'a fixed family of trees with empty files (top level, nested, in hidden directories, the only file, '
         'all files, matched by an include pattern, with unrelated same-named empty / non-empty files and '
         'directories below the cwd) under all variants; '
@@ -208,11 +209,15 @@ def variants_for(tree, rng, full=True):
             c = '/'.join(child)
             v.append(('parent', '{name}/' + c + '/..'))
             v.append(('tree', c + '/..'))
-            for s in ['..', '../', '../.', './..', '../../{name}', '{abs}', '../' + c + '/..']:
+            for s in ['..', '../', '../.', './..', '../../{name}', '{abs}', '../' + c + '/..',
+                      '../../../{P}/{name}/', '.././' + c + '/../.']:
                 v.append(('child:' + c, s))
+            v.append(('tree', '../{name}/' + c + '/..'))
+            v.append(('parent', './{name}/' + c + '/.././'))
+            v.append(('unrelated', '{rel_from_U}/' + c + '/..'))
         if grand:
             g = '/'.join(grand)
-            for s in ['../..', '../../.', '../../../{name}']:
+            for s in ['../..', '../../.', '../../../{name}', '../../../{name}/' + g + '/../..']:
                 v.append(('child:' + g, s))
     if not full:
         rng.shuffle(v)
@@ -427,18 +432,6 @@ def spell_class(spelling):
     return 'rel'
 
 
-def verdict(st, path):
-    """documented pattern semantics on one path string: True = excluded"""
-    def g(p):
-        return fnmatch.fnmatch(path.casefold(), p.casefold())
-
-    def r(p):
-        return bool(re.search(p, path))
-    if any(r(p) for p in st['inr']) or any(g(p) for p in st['ing']):
-        return False
-    return any(r(p) for p in st['exr']) or any(g(p) for p in st['exg'])
-
-
 def fileset(created):
     if created['kind'] == 'multi':
         return {(tuple(p), s) for p, s in created['files']}
@@ -447,62 +440,9 @@ def fileset(created):
     return set()
 
 
-def _diff(case, observed):
-    return fileset(observed) ^ fileset(case['spec'])
-
-
-def _is_model(case, observed):
-    """observed is what the model of the code as it is (with the recorded defects) computes"""
-    return 'model' in case and observed == case['model']
-
-
-def m_dotdot_patterns(case, observed, finding):
-    """D15b: spelling is `..` (pathlib-equal forms ../, ../., ./..), patterns are set, and some
-    file's verdict on '../rel' differs from its verdict on 'name/rel'"""
-    if not _is_model(case, observed) or case['spell_class'] != 'dotdot':
-        return False
-    st = case['group']['st']
-    if not any(st.values()):
-        return False
-    name = case['group']['tree']['name']
-    d = {p for p, _ in _diff(case, observed)}
-    return bool(d) and any(verdict(st, '/'.join(('..',) + p)) != verdict(st, '/'.join((name,) + p)) for p in d)
-
-
-def _hidden(rel):
-    return any(c not in ('.', '..', '') and c.startswith('.') for c in rel)
-
-
-def m_common_prefix(case, observed, finding):
-    """D15c: the files handed to filter_files (the non-empty listed ones) share their first
-    component (or there is one such file in a directory), and every deviating file is hidden
-    within that shared part or the pattern set is not empty"""
-    if not _is_model(case, observed) or case['hypParts']['prefixOK'] or case['spell_class'] == 'name-lost':
-        return False
-    tree = case['group']['tree']
-    ne = [tuple(f['rel']) for f in tree['files'] if f['size'] != 0]
-    if not ne:
-        return False
-    cp = os.path.commonprefix(ne)             # component-wise on tuples
-    d = {p for p, _ in _diff(case, observed)}
-    has_pat = any(case['group']['st'].values())
-    return bool(d) and all(p[:len(cp)] == tuple(cp) and (has_pat or _hidden(cp)) for p in d)
-
-
-def m_name_lost(case, observed, finding):
-    """D15d: relative spelling that normalises to '.', '..', '../..' without being '.' or '..'
-    (sub/.., ../.., ../sub/..): the torrent is named '' or '..'"""
-    # the class of spellings is itself the narrow part; within it the torrent-relative paths are
-    # '../rel' or '<cwd name>/rel' under the name '..' / '', which also misleads patterns — all of
-    # it is what the model of the recorded defect computes
-    return _is_model(case, observed) and case['spell_class'] == 'name-lost'
-
-
-MATCHERS = {
-    'c15_name_lost': m_name_lost,
-    'c15_dotdot_patterns': m_dotdot_patterns,
-    'c15_common_prefix': m_common_prefix,
-}
+# The matchers of the recorded defects D15a (d89a92e), D15b, D15d (42ec9ba) and D15c (1742c6d) are
+# gone with the defects: every deviation of a variant from the specification is a VIOLATION.
+MATCHERS = {}          # filled below (D15e, the history family)
 
 
 # ------------------------------------------------------------------------------------------
@@ -572,9 +512,11 @@ def evaluate(ctx, drv, groups, thorough=False):
             case = {'group': {k: g[k] for k in ('tree', 'st', 'decoy', 'shape')}, 'loc': r['loc'],
                     'variant': v, 'cwd': r['cwd'], 'spelling': r['spelling'], 'spell_class': sc,
                     'hypParts': rep['hypParts'], 'model': M, 'spec': S}
+            if not hyp:
+                ctx.dist['outside-hyp:' + ','.join(k for k, ok in sorted(rep['hypParts'].items()) if not ok)] += 1
             ctx.sample({'case': {k: case[k] for k in ('group', 'cwd', 'spelling')}, 'spec': S, 'impl': I, 'hyp': hyp})
             if hyp and not rep['modelEqSpec']:
-                ctx.machinery_error('model != spec under hyp although C15_created_partial is proved', case)
+                ctx.machinery_error('model != spec under hyp although C15_created_env is proved', case)
                 continue
             if I != S:
                 what = (f"Torrent({r['spelling']!r}) from cwd={v['cwd']} differs from the result that depends "
